@@ -28,6 +28,7 @@ pub struct RunRec {
     pub stderr: String,
     pub stdout: String,
     pub faulted: bool,
+    pub short_writes: u64,
     pub conflict_copies_before: usize,
 }
 
@@ -99,15 +100,22 @@ pub fn exec_history_named(
                     // only errors on mutating calls: they make the run abort with a reported error.
                     // (Read-side errors are swallowed by design — "skipped, never guessed" — and
                     // are outside C02's quantifier; see DESIGN.md.)
-                    let k = [OpKind::Write, OpKind::Rename, OpKind::Mkdir, OpKind::Fsync][*kind as usize % 4];
-                    let e = [EIO, ENOSPC, EACCES][(*nth as usize) % 3];
-                    cfg.faults.push(Fault::FailOp {
-                        target: ProcSel::Role("bisync".into()),
-                        nth: *nth,
-                        kind: k,
-                        errno: e,
-                    });
-                    faulted = true;
+                    if *kind == 4 {
+                        // a short write is legal behaviour of write(2), not an error: nothing is relaxed
+                        cfg.faults.push(Fault::ShortWrite { target: ProcSel::Role("bisync".into()), nth: *nth });
+                    } else {
+                        // (5: listing a directory fails — the walk must give up, never treat the
+                        // subtree as empty, which would read as "deleted on this side")
+                        let k = if *kind == 5 { OpKind::Readdir } else { [OpKind::Write, OpKind::Rename, OpKind::Mkdir, OpKind::Fsync][*kind as usize % 4] };
+                        let e = [EIO, ENOSPC, EACCES][(*nth as usize) % 3];
+                        cfg.faults.push(Fault::FailOp {
+                            target: ProcSel::Role("bisync".into()),
+                            nth: *nth,
+                            kind: k,
+                            errno: e,
+                        });
+                        faulted = true;
+                    }
                 }
                 let (ra, rb) = if swap { (ROOT_B, a_arg) } else { (a_arg, ROOT_B) };
                 let out = run_bisync(w, cfg, ra, rb, &[], h.hostname_env);
@@ -126,6 +134,7 @@ pub fn exec_history_named(
                     stderr: out.procs[0].err_str(),
                     stdout: out.procs[0].out_str(),
                     faulted: faulted && out.stats.injected_errors > 0,
+                    short_writes: out.stats.short_writes,
                 };
                 shape = fnv(&[shape, out.shape, kind as u64]);
                 per_run(&out.world, &rec, &out, &l)?;
@@ -159,6 +168,9 @@ fn note_probes(rep: &mut RunReport, hr: &HistRun) {
         }
         if r.faulted {
             rep.fault("injected_io_error", 1);
+        }
+        if r.short_writes > 0 {
+            rep.fault("short_write", r.short_writes);
         }
         if let Some((_, c)) = r.plan {
             if c > 0 {
@@ -423,7 +435,7 @@ impl Check for C06 {
         "exploration"
     }
     fn rule(&self) -> String {
-        "histories as in C02 without injected errors; after every completed run: A==B, archive entries == fingerprint map of the tree, an immediate second run plans 0 actions and issues no mutating op under A or B; the whole history is re-executed with shifted clocks and with the roots named (B,A) and the bytes at every path after every run must equal the original. Non-trivial = a completed run that planned >= 1 action; distinct = hash of per-run trace shapes".into()
+        "histories as in C02 without injected errors (a quarter of them with one short write in some runs; edits carry current, backdated, start-of-world and future mtimes); after every completed run: A==B, archive entries == fingerprint map of the tree, an immediate second run plans 0 actions and issues no mutating op under A or B; the whole history is re-executed with shifted clocks and with the roots named (B,A) and the bytes at every path after every run must equal the original. Non-trivial = a completed run that planned >= 1 action; distinct = hash of per-run trace shapes".into()
     }
     fn assumptions(&self) -> Vec<String> {
         vec!["clash-free trees (no file-vs-directory conflicts between the sides)".into(), "as C02".into()]
@@ -441,6 +453,15 @@ impl Check for C06 {
         let mut r = Rng::new(seed);
         let mut hist = gen_history(&mut r, 12, false);
         hist.allow_clash = false;
+        // a quarter of the histories: some runs meet one short write (legal write(2) behaviour,
+        // not an error: every clause applies unchanged)
+        if r.below(4) == 0 {
+            for st in &mut hist.steps {
+                if matches!(st, Step::Bisync) && r.below(3) == 0 {
+                    *st = Step::BisyncFault { kind: 4, nth: r.range(1, 8) as u32 };
+                }
+            }
+        }
         Sc {
             hist,
             cfg_seed: r.next_u64(),
